@@ -119,6 +119,11 @@ class HistoryGen:
         n = rng.choice([0, 1, 3, 6, 10])
         items = []
         keys = set()
+        if rng.random() < 0.01:
+            # a chart with some three hundred properties (its note data far down the mapping)
+            for j in range(rng.choice([258, 300])):
+                items.append(["P%d" % j, "v%d" % j])
+                keys.add("P%d" % j)
         base = ["CHARTNAME", "STEPSTYPE", "DESCRIPTION", "CHARTSTYLE", "DIFFICULTY", "METER", "RADARVALUES", "CREDIT",
                 "BPMS", "OFFSET", "DISPLAYBPM", "ATTACKS", "MUSIC", "LABELS", "NOTES3", "NOTESAUTHOR", "XNOTES", "NOTE", "NOTEDATA2"]
         for _ in range(n):
